@@ -127,7 +127,7 @@ func runC32(c *simkit.Ctx) {
 					continue
 				}
 				for _, sg := range hdr.SigData {
-					if signature.Verify(bk, hash[:], sg) == nil {
+					if c16SigValid(bk, hash[:], sg) {
 						valid[id] = true
 						break
 					}
